@@ -27,7 +27,8 @@ REGISTRY = dict(
           "and the list returns the conjunction; Checkpoint/Eval fire exactly when n_calls mod freq = 0 counted across learn() calls, EveryNTimesteps fires iff num_timesteps - last_trigger >= n and, "
           "when last_trigger <= num_timesteps, every gap lies in [n, n+n_envs); StopTrainingOnMaxEpisodes stops iff cumulated dones >= max_episodes*n_envs. "
           "Cadence conditions and loop guards are regenerated from callbacks.py / on_policy_algorithm.py / off_policy_algorithm.py / utils.py / base_class.py. "
-          "Finding F8 (EveryNTimesteps after a counter reset) is a Refuted theorem and is reproduced on the implementation."),
+          "Known findings of C13: everyN-stale-trigger-after-counter-reset (F8: a Refuted theorem, reproduced on the implementation) and nested-callbacklist-loses-parent "
+          "(F24: StopTrainingOnRewardThreshold / StopTrainingOnNoModelImprovement two CallbackLists deep below an EvalCallback assert on the first learn())."),
     note=("Trusted: Coq 8.16.1 kernel (vm_compute, no native_compute), translate/py2coq.py + specs/callbacks.py, harness/c13.py, Python/numpy/torch/gymnasium. "
           "Modelled, not verified: evaluate_policy inside EvalCallback (its mean reward is an oracle input; most runs stub it, some run the real one), file writing of checkpoints, "
           "ProgressBarCallback / LogEveryNTimesteps (not modelled); forwarding for ALL histories is proved for CallbackList paths, the children of EveryNTimesteps / EvalCallback have one-step theorems plus the all-history cadence of their parent. All C13 theorems are closed under the global context."),
